@@ -114,6 +114,8 @@ def seeded_variants(prop, root):
 GENERIC_EQUIV = [
     {"name": "whole package reformatted (ast.unparse: layout, comments, parentheses, quotes)", "kind": "equiv", "transform": "reformat"},
     {"name": "every function local renamed to an unrelated name (zqN_M) + reformatted", "kind": "equiv", "transform": "@"},
+    {"name": "every if/else and conditional expression written with the negated test and exchanged arms", "kind": "equiv", "transform": "swapif"},
+    {"name": "every single comparison written the other way round (a < b -> b > a, a == b -> b == a)", "kind": "equiv", "transform": "flipcmp"},
 ]
 
 
